@@ -58,6 +58,8 @@ fn main() {
         "C18" => props::c18::run(&a),
         "C15" => props::c15::run(&a),
         "C10" => props::c10::run(&a),
+        "C13" => props::c13::run(&a),
+        "C14" => props::c14::run(&a),
         _ => { eprintln!("unknown property {}", prop); std::process::exit(2); }
     }
 }
